@@ -1318,7 +1318,34 @@ def emit_block(unit, loc, dlines, tmpl_where):
             rest.append(raw)
     if not name or not sig:
         raise Unsupported('%s: //@block needs name and sig' % tmpl_where)
-    ma = _find_anchor(body, bmask, a_txt, 0)
+    blk_renames = {}
+    try:
+        ma = _find_anchor(body, bmask, a_txt, 0)
+    except AnchorLost:
+        # renamed locals: the anchor with its local-variable-like identifiers as wildcards
+        ma, mp_ = _find_anchor_fuzzy(body, bmask, a_txt, 0)
+        blk_renames.update(mp_)
+    if b_txt not in ('$', '{*}', '{}'):
+        rxb_ = re.compile(r'\s*'.join(re.escape(t) for t in b_txt.split()))
+        if not any(bmask[m_.start()] and m_.start() >= ma.end() for m_ in rxb_.finditer(body)):
+            try:
+                mbf_, mp_ = _find_anchor_fuzzy(body[ma.end():], bmask[ma.end():], b_txt, 1)
+                consistent = all(blk_renames.get(k_, v_) == v_ for k_, v_ in mp_.items())
+                if consistent:
+                    blk_renames.update(mp_)
+                    b_txt = body[ma.end() + mbf_.start():ma.end() + mbf_.end()]
+            except AnchorLost:
+                pass
+    if blk_renames:
+        def _brn(t):
+            for a_, b_ in blk_renames.items():
+                t = re.sub(r'(?<![\w.])%s\b' % re.escape(a_), b_, t)
+            return t
+        sig = _brn(sig)
+        fall = _brn(fall)
+        substs = [(_brn(a_), _brn(b_)) for a_, b_ in substs]
+        rest = [_brn(l_) for l_ in rest]
+        unit.rule_log.append({'rule': 'AID', 'before': 'block %s written for locals %s' % (name, ', '.join(sorted(blk_renames))), 'after': 'renamed to %s' % ', '.join(blk_renames[k] for k in sorted(blk_renames)), 'where': rel})
     if b_txt == '$':
         # up to the end of the function body
         endb = len(body.rstrip()) - 1
